@@ -1133,8 +1133,20 @@ fn binder_scenarios(t: &mut Trace, rng: &mut Rng, thorough: bool) {
         "binder bind t=5",
         "binder bind_many ts=5,700",
         "binder bind_many ts=700..899",
+        // a batch naming a token that is bound in an EARLIER bucket than the one the batch lands in
+        "binder bind_many ts=10,950",
+        "binder bind_many ts=950,10",
+        "binder bind_many ts=950,951,320,952",
+        "binder bind_many ts=950,951",
     ] {
         drive(t, &mut s, op);
+    }
+    for _ in 0..(if thorough { 60 } else { 12 }) {
+        // batches of fresh tokens with one token from anywhere in the range (bound in some bucket, or not)
+        let x = rng.below(960) as u32;
+        let f = 2000 + rng.below(17_000) as u32;
+        let l = if rng.chance(50) { vec![f, x] } else { vec![x, f, f + 1] };
+        drive(t, &mut s, &format!("binder bind_many ts={}", lst(&l)));
     }
     for _ in 0..(if thorough { 220 } else { 40 }) {
         // shrink back across the boundaries by unbinding random bound tokens
@@ -1434,6 +1446,29 @@ fn docs_scenarios(t: &mut Trace, rng: &mut Rng, thorough: bool) {
     }
     for _ in 0..(if thorough { 160 } else { 30 }) {
         drive(t, &mut s, &format!("docs remove n={}", rng.below(160)));
+    }
+    // swap-remove ACROSS buckets: the last document moves into a slot of another bucket and is then
+    // updated, looked up and removed through its stored index
+    t.seq("docs directed swap-remove across buckets big=1");
+    let mut s = DocsSim::new(0);
+    for op in [
+        "docs fill a=0 b=120 u=3 h=7 ts=2100",
+        "docs remove n=60",
+        "docs set n=119 u=9 h=9 ts=2101",
+        "docs set n=10 u=8 h=8 ts=2102",
+        "docs remove n=119",
+        "docs remove n=10",
+        "docs remove n=70",
+        "docs set n=118 u=7 h=7 ts=2103",
+        "docs remove n=118",
+        "docs remove n=5",
+        "docs set n=117 u=6 h=6 ts=2104",
+        "docs remove n=117",
+        "docs set n=60 u=5 h=5 ts=2105",
+        "docs remove n=55",
+        "docs remove n=60",
+    ] {
+        drive(t, &mut s, op);
     }
     // the limit of 5000 documents
     if thorough && first_shard() {
